@@ -276,10 +276,17 @@ class Gen:
 		else:
 			ak = rng.choice(['int', 'float', 'int', 'float', 'str'] if 'strstr' in self.regions and not self.excluded() else ['int', 'float'])
 		if ak == 'str' and kind != 'str' and rng.random() < 0.7:
-			# a string that the cast can read
-			body = rng.choice(['12', '7', ' 42 ', '-3', '+4', '1_0', '007', '0']) if kind == 'int' else rng.choice(['1.5', '12', 'nan', 'inf', '-inf', '1e3', ' 2.5 ', '1_0.5', '.5'])
+			# a string literal as cast argument: every spelling class of Python's int(str) / float(str)
+			body = self.cast_body(kind)
 			q = rng.choice(["'", '"'])
-			at, av = f'{q}{body}{q}', body
+			at = f'{q}{body}{q}'
+			if '\\' in body:
+				if self.excluded():
+					body = body.replace('\\t', ' ')
+					at = f'{q}{body}{q}'
+				else:
+					self.feats.add('escape')
+			av = eval(at, {'__builtins__': {}})  # noqa: S307 - steering value of a generated literal
 		else:
 			at, av = self.level(ak, 0, d - 1)
 		if _is_exc(av):
@@ -291,6 +298,30 @@ class Gen:
 		except Exception as e:  # noqa: BLE001
 			val = e
 		return f'{kind}({at})', val
+
+	def cast_body(self, kind: str) -> str:
+		"""Body of a string literal handed to int() / float(): small and > 2**53 digit strings (sign, blanks, single underscores, leading
+		zeros as int() accepts them), float-looking text under int() (CPython: ValueError), int-looking and special text under float(),
+		and text neither accepts."""
+		rng = self.rng
+		r = rng.random()
+		if r < 0.25:
+			digits = str(rng.randint(0, 70000))
+		elif r < 0.6:
+			n = rng.choice([2 ** 53 + 1, 10 ** 17 + 1, 2 ** 64 - 1, 2 ** 64 + 1, 18014398509481985, 2 ** 53 + 3, rng.randint(2 ** 53, 2 ** 80) | 1, rng.randint(2 ** 53, 2 ** 64) | 1, 10 ** 22 + 1])
+			digits = str(n)
+		elif r < 0.8:
+			return rng.choice(['2.7', '1e3', '1.0', '.5', '1_0.5', 'inf', 'nan', '-inf', '+inf', 'Infinity', ' 2.5 ', '1e400', '-0.0', '9007199254740993.0', '1E2', '12.'])
+		elif r < 0.9:
+			return rng.choice(['', 'abc', '1__0', '_1', '1_', '0x1f', '1 2', '+-3', '- 3', '1e', '.', '--1', '0b11', '1,5'])
+		else:
+			digits = rng.choice(['007', '0', '00', '0_0', '000123'])
+		if rng.random() < 0.3 and len(digits) > 3:
+			k = rng.randint(1, len(digits) - 1)
+			digits = digits[:k] + '_' + digits[k:]
+		sign = rng.choice(['', '', '', '-', '-', '+'])
+		pad_l, pad_r = rng.choice([('', ''), ('', ''), ('', ''), (' ', ''), ('', ' '), ('  ', ' '), ('\\t', ' ')])
+		return f'{pad_l}{sign}{digits}{pad_r}'
 
 	def primary(self, kind: str, d: int) -> tuple[str, Any]:
 		rng = self.rng
@@ -975,7 +1006,10 @@ def compare(real: str, py: Any, escaped: bool) -> str | None:
 			return None
 		return f'exec raised {real}, which is not an application error'
 	if _is_exc(py):
-		return None  # CPython evaluates nothing: there is no value to differ from
+		if isinstance(py, (ValueError, TypeError, ZeroDivisionError, OverflowError)) and not isinstance(py, UnicodeError):
+			# CPython rejects the operation itself (not an unbound name): folding it to a value is a different value than "none"
+			return f'exec gives {real[:80]}, CPython raises {type(py).__name__}'
+		return None  # a name CPython has not bound (forward reference): there is no value to differ from
 	if real.startswith('str ') and type(py) is str:
 		s = common.unhx(real[4:])
 		content = s[1:-1]
